@@ -221,6 +221,18 @@ func (x *Exec) invEnv(st *State, head *ssa.BasicBlock) *Env {
 
 func (x *Exec) loopEnter(st *State, fn *ssa.Function, head *ssa.BasicBlock, ls *contract.LoopSpec, info *FuncInfo) {
 	l := info.headers[head]
+	// a `for k, v := range someMap` loop: the iterator's ghost state is visible to the invariant
+	// from the start (nothing visited yet)
+	for b := range l.Blocks {
+		for _, ins := range b.Instrs {
+			if nx, ok := ins.(*ssa.Next); ok && len(st.Frames) > 0 {
+				if it, ok := st.Frames[0].Regs[nx.Iter].(VRange); ok && it.Str == nil && it.Vis != nil {
+					st.Ghost["visited"] = VMath{it.Vis}
+					st.Ghost["nvisited"] = VMath{it.Pos}
+				}
+			}
+		}
+	}
 	// 1. invariant holds on entry
 	env := x.invEnv(st, head)
 	for i, inv := range ls.Invariants {
